@@ -2,6 +2,8 @@ package gen
 
 import (
 	"bytes"
+	"fmt"
+	"strings"
 
 	"verif/harness/core"
 )
@@ -36,6 +38,47 @@ func canTouch(prev, next string) bool {
 		return true
 	}
 	return punct(prev) || punct(next)
+}
+
+// Placeholders inside a token text, expanded by the renderer: a token such as a cast, 'yield from' or a
+// heredoc opener is ONE token for the scanner but admits blanks inside; which blanks is a layout choice.
+const (
+	OptHB = "\x00" // optional horizontal blanks ([ \t]*): nothing in the canonical and minimal layouts
+	ReqWS = "\x01" // mandatory whitespace incl. line terminators: one blank in the canonical and minimal layouts
+)
+
+// PlainTok renders a token text with its placeholders in canonical form.
+func PlainTok(s string) string {
+	return strings.ReplaceAll(strings.ReplaceAll(s, OptHB, ""), ReqWS, " ")
+}
+
+func (l *layouter) expand(s string) string {
+	if !strings.ContainsAny(s, OptHB+ReqWS) {
+		return s
+	}
+	if l.mode == LayCanon || l.mode == LayMinimal {
+		return PlainTok(s)
+	}
+	var sb strings.Builder
+	for i := 0; i < len(s); i++ {
+		switch s[i] {
+		case 0:
+			b := l.r.Pick("", "", " ", "\t", "  ", "\t ", " \t  ")
+			sb.WriteString(b)
+			l.stat("inside-token-optional", fmt.Sprintf("%q", b))
+		case 1:
+			nl := l.nl()
+			if nl == "\r" {
+				nl = "\r\n"
+			}
+			b := l.r.Pick(" ", "\t", "  ", nl, " "+nl+"\t", nl+nl)
+			sb.WriteString(b)
+			l.stat("inside-token-mandatory", fmt.Sprintf("%q", b))
+		default:
+			sb.WriteByte(s[i])
+		}
+	}
+	return sb.String()
 }
 
 type layouter struct {
@@ -203,9 +246,10 @@ func RenderPos(toks []Tok, mode int, r *core.Rand, stats map[string]int) ([]byte
 			}
 		}
 		offs = append(offs, out.Len())
-		out.WriteString(tk.S)
-		if tk.S != "" {
-			prev = tk.S
+		ts := l.expand(tk.S)
+		out.WriteString(ts)
+		if ts != "" {
+			prev = ts
 		}
 		first = false
 	}
